@@ -46,7 +46,7 @@ BOUNDS = {
              "LFR burn_in in {0,1,2} x subsample in {1,2}, N<=3; KdqTreeStreaming window in {1,2}, N<=3w+4; KdqTreeBatch N<=4; "
              "HDDDM/CDBD detect_batch in {1,2,3} x {stdev,tstat}, N<=4(5); NNDVI N<=4; PCACD window 2, both metrics, scaling "
              "on/off, N<=4w+2",
-    "thorough": "as quick with STEPD L<=5, CUSUM N<=2*burn_in+4, ADWIN max_buckets<=3, period in {1,2,4}, N<=12, LFR N<=4, "
+    "thorough": "as quick with STEPD L<=5, CUSUM N<=2*burn_in+4, ADWIN max_buckets<=3, period in {1,2,4}, N<=10, LFR N<=4, "
                 "kdq window<=3, HDM N<=6(7), PCACD window in {2,3}",
 }
 OUTSIDE = ("histories longer than N for the B-shaped detectors; IEEE rounding / NaN for the S-shaped steps (exact real "
@@ -465,7 +465,7 @@ def jobs(tier):
         for nst in (1, 2) if q else (1, 2, 4):
             for wst in (0, 2):
                 out.append(Job(f"adwin-hist-mb{mb}-nst{nst}-wst{wst}", "checks.c01:body_history",
-                               {"det": "ADWIN", "N": 9 if q else 12,
+                               {"det": "ADWIN", "N": 9 if q else 10,
                                 "cfg": {"max_buckets": mb, "new_sample_thresh": nst, "window_size_thresh": wst,
                                         "subwindow_size_thresh": 1}},
                                expect=("after-drift", "state-drift")))
@@ -499,7 +499,7 @@ def jobs(tier):
                        {"length": 4, "first_ops": first, "explicit_len": True}, opts={"validate": 1}))
     for mb in (1, 2):
         out.append(Job(f"adwinacc-hist-mb{mb}", "checks.c01:body_history",
-                       {"det": "ADWINAccuracy", "N": 7 if q else 9,
+                       {"det": "ADWINAccuracy", "N": 7 if q else 8,
                         "cfg": {"max_buckets": mb, "new_sample_thresh": 1, "window_size_thresh": 0,
                                 "subwindow_size_thresh": 1}},
                        expect=("after-drift", "state-drift")))
